@@ -120,4 +120,8 @@ def replay_tables(ctx, binary, thorough):
         "subset of present units x every single-field corruption x validator experiments; outcome tables generated by "
         "TLC for the repaired and the as-is switch settings are replayed case by case on the real propeller package "
         "(message lengths 0..17, 125..130, 16380..16386; every subset; every corruption in every subset); "
-        "non-trivial = every case class must have been run (checked) and the as-is model must violate the property in TLC")
+        "non-trivial = every case class must have been run (checked) and the as-is model must violate the property in TLC. "
+        "The property does not quantify over schedules; the concurrent round (and the 6 case workers) is nevertheless a verdict "
+        "because processing several messages at once is how ONE node's engine uses this package internally (Processor: one "
+        "goroutine per message key plus the publisher): package-level state shared between independent messages is part of "
+        "a single node's behaviour, not an interleaving of independent API users")
